@@ -359,7 +359,8 @@ func c08Sections(envKind int, fs []int, bodyKind int) core.Result {
 		}
 		names = append(names, c08SecFilters[f])
 	}
-	body := []string{"a < b & 'c'", "x{{ v }}y", "{% for i in [1, 2] %}<{{ i }}>{% endfor %}"}[bodyKind]
+	// (bodies 3..6 render nothing: the filters still apply, to the empty text)
+	body := []string{"a < b & 'c'", "x{{ v }}y", "{% for i in [1, 2] %}<{{ i }}>{% endfor %}", "", "{% if false %}n{% endif %}", "{{ '' }}", "{% set inner %}captured{% endset %}"}[bodyKind]
 	list := "{% filter " + strings.Join(names, "|") + " %}" + body + "{% endfilter %}"
 	nested := body
 	for _, n := range names {
@@ -389,8 +390,11 @@ func c08Sections(envKind int, fs []int, bodyKind int) core.Result {
 	if o1 != o2 {
 		return core.Violation("routing", fmt.Sprintf("%q renders %q, the same filters as nested sections %q render %q", list, o1, nested, o2))
 	}
-	if bodyKind == 0 {
+	if bodyKind == 0 || bodyKind >= 3 {
 		want := body
+		if bodyKind >= 3 {
+			want = ""
+		}
 		for _, n := range names {
 			switch n {
 			case "up":
@@ -414,7 +418,81 @@ func c08Sections(envKind int, fs []int, bodyKind int) core.Result {
 	return core.Okay(true, o1)
 }
 
+// c08TwigCapture (Twig environment): what a capturing construct captures is exactly what its body renders when it is
+// not captured - prints included, escaped for the template's content type. The captured text is observed raw, through
+// a host function that records its argument, and through an identity filter section.
+func c08TwigCapture(form, ext, bodyKind int) core.Result {
+	name := []string{"m.html", "m.js", "m.css", "m"}[ext]
+	body := []string{"x{{ v }}y", "{% for i in [1, 2] %}{{ v }}{{ i }}{% endfor %}", "{% if v %}{{ v ~ '<' }}{% endif %}", "{{ v }}{{ w }}"}[bodyKind]
+	var seen []string
+	mk := func(src string) (string, error, string) {
+		env := twig.New(&stick.MemoryLoader{Templates: map[string]string{name: src}})
+		env.Functions["probe"] = func(ctx stick.Context, args ...stick.Value) stick.Value {
+			seen = append(seen, stick.CoerceString(args[0]))
+			return ""
+		}
+		env.Filters["idf"] = func(ctx stick.Context, val stick.Value, args ...stick.Value) stick.Value { return val }
+		return tryExec(env, name, map[string]stick.Value{"v": "<&'\">\\/", "w": stick.NewSafeValue("<safe>", "html", "js", "css")})
+	}
+	direct, err, pan := mk("|" + body + "|")
+	if err != nil || pan != "" {
+		return core.Violation("error", fmt.Sprintf("%q in %s: %v %s", body, name, err, pan))
+	}
+	direct = strings.Trim(direct, "|")
+	src := ""
+	switch form {
+	case 0:
+		src = "{% set c %}" + body + "{% endset %}|{{ c|raw }}|"
+	case 1:
+		src = "{% set c %}" + body + "{% endset %}{{ probe(c) }}||"
+	case 2:
+		src = "|{% filter idf|raw %}" + body + "{% endfilter %}|"
+	case 3:
+		src = "{% macro m(v, w) %}" + body + "{% endmacro %}|{{ _self.m(v, w)|raw }}|"
+	case 4:
+		src = "{% block b %}{% endblock %}{% set c %}{% set d %}" + body + "{% endset %}{{ d|raw }}{% endset %}|{{ c|raw }}|"
+	case 5:
+		src = "{% for q in [1] %}{% set c %}" + body + "{% endset %}{% endfor %}|{% set c2 %}" + body + "{% endset %}{{ c2|raw }}|"
+	}
+	seen = nil
+	out, err, pan := mk(src)
+	if err != nil || pan != "" {
+		return core.Violation("error", fmt.Sprintf("%q in %s: %v %s", src, name, err, pan))
+	}
+	got := strings.Trim(out, "|")
+	if form == 1 {
+		if len(seen) != 1 {
+			return core.Violation("routing", fmt.Sprintf("%q in %s: the function was called %d times", src, name, len(seen)))
+		}
+		got = seen[0]
+	}
+	if got != direct {
+		return core.Violation("routing", fmt.Sprintf("in %s, %q captures %q, but its body renders %q when it is not captured", name, src, got, direct))
+	}
+	return core.Okay(true, got)
+}
+
+// c08Undeclared: a filter section naming a filter that does not exist fails, whatever its body renders.
+func c08Undeclared(b int) core.Result {
+	body := []string{"x", "", "{% if false %}n{% endif %}", "{{ '' }}"}[b]
+	src := "a{% filter nosuchfilter %}" + body + "{% endfilter %}b"
+	_, err, pan := tryExec(c08Env(map[string]string{"main": src}), "main", nil)
+	if pan != "" {
+		return core.Violation("panic", fmt.Sprintf("%q panicked: %s", src, pan))
+	}
+	if err == nil {
+		return core.Violation("routing", fmt.Sprintf("%q names a filter that is not declared but renders without error", src))
+	}
+	return core.Okay(true, "err")
+}
+
 func c08Run(c core.Case) core.Result {
+	if c.Fam == "twigcapture" {
+		return c08TwigCapture(c.N[0], c.N[1], c.N[2])
+	}
+	if c.Fam == "undeclared" {
+		return c08Undeclared(c.N[0])
+	}
 	if c.Fam == "repeat" {
 		return c08Repeat(c.N[0], c.N[1], c.N[2])
 	}
@@ -524,10 +602,13 @@ func c08Levels(tier string) []core.Level {
 			}
 		}
 	}})
-	lv = append(lv, core.Level{Name: "filter sections with a list of 2..3 filters over {up, rev, para, escape} x 3 bodies (text, a print, a loop) in the core environment and in .txt / .html templates of the twig environment: the filters apply in the order named, exactly like nested single-filter sections", Gen: func(emit func(core.Case)) {
+	lv = append(lv, core.Level{Name: "filter sections with a list of 2..3 filters over {up, rev, para, escape} x 7 bodies (text, a print, a loop, and four that render nothing) in the core environment and in .txt / .html templates of the twig environment: the filters apply in the order named, exactly like nested single-filter sections", Gen: func(emit func(core.Case)) {
 		nf := len(c08SecFilters)
+		for b := 0; b < 4; b++ {
+			emit(core.Case{Fam: "undeclared", N: []int{b}})
+		}
 		for envKind := 0; envKind < 3; envKind++ {
-			for b := 0; b < 3; b++ {
+			for b := 0; b < 7; b++ {
 				for f1 := 0; f1 < nf; f1++ {
 					for f2 := 0; f2 < nf; f2++ {
 						emit(core.Case{Fam: "sections", N: []int{envKind, b, f1, f2}})
@@ -535,6 +616,15 @@ func c08Levels(tier string) []core.Level {
 							emit(core.Case{Fam: "sections", N: []int{envKind, b, f1, f2, f3}})
 						}
 					}
+				}
+			}
+		}
+	}})
+	lv = append(lv, core.Level{Name: "Twig environment: 6 capturing forms (set-capture printed raw / handed to a host function / nested / in a loop, identity filter section, macro) x 4 bodies with prints of markup and of a safe value x .html / .js / .css / extension-less templates: the captured text is what the body renders uncaptured", Gen: func(emit func(core.Case)) {
+		for form := 0; form < 6; form++ {
+			for ext := 0; ext < 4; ext++ {
+				for b := 0; b < 4; b++ {
+					emit(core.Case{Fam: "twigcapture", N: []int{form, ext, b}})
 				}
 			}
 		}
